@@ -10,6 +10,7 @@ import (
 	"io"
 	"math/big"
 	"math/rand"
+	"strings"
 
 	"github.com/icon-project/goloop/common"
 	"github.com/icon-project/goloop/service/txresult"
@@ -19,6 +20,9 @@ import (
 
 type compIn struct {
 	X string `json:"x_hex"`
+}
+type holdIn struct {
+	Xs []string `json:"xs_hex"`
 }
 type decIn struct {
 	B string `json:"stream_hex"`
@@ -129,21 +133,23 @@ func stdDecompress(b []byte) ([]byte, error) {
 // oracleComp: Decompress(Compress x) == x; Compress x is the legacy encoding:
 // the bit stream of Go's compress/lzw (MSB, litWidth 8) without its leading
 // 9-bit clear code; the first code is the literal x[0].
-func oracleComp(x []byte) (comp, dec []byte, msg string) {
+func oracleCompLive(x []byte) (comp, dec, keepC, keepD []byte, msg string) {
 	if p := hxlib.Catch(func() { comp = common.Compress(x) }); p != "" {
-		return nil, nil, "Compress panics: " + p
+		return nil, nil, nil, nil, "Compress panics: " + p
 	}
+	keepC = clone(comp) // the value at the moment it was returned
 	if p := hxlib.Catch(func() { dec = common.Decompress(comp) }); p != "" {
-		return comp, nil, "Decompress panics on Compress output: " + p
+		return comp, nil, keepC, nil, "Decompress panics on Compress output: " + p
 	}
+	keepD = clone(dec)
 	if !bytes.Equal(dec, x) {
-		return comp, dec, fmt.Sprintf("round trip: Decompress(Compress(x)) != x for %d input bytes (got %d bytes back)", len(x), len(dec))
+		return comp, dec, keepC, keepD, fmt.Sprintf("round trip: Decompress(Compress(x)) != x for %d input bytes (got %d bytes back)", len(x), len(dec))
 	}
 	if len(x) == 0 {
 		if len(comp) != 0 {
 			msg = "format: Compress of the empty string is not empty"
 		}
-		return comp, dec, msg
+		return comp, dec, keepC, keepD, msg
 	}
 	ref := stdCompress(x)
 	rb := bitsOf(ref)
@@ -155,11 +161,11 @@ func oracleComp(x []byte) (comp, dec []byte, msg string) {
 		}
 	}
 	if first != 256 {
-		return comp, dec, "oracle: reference encoder did not start with a clear code"
+		return comp, dec, keepC, keepD, "oracle: reference encoder did not start with a clear code"
 	}
 	want := packBits(rb[9:])
 	if !(bytes.Equal(want, comp) || (len(want) == len(comp)+1 && want[len(comp)] == 0 && bytes.Equal(want[:len(comp)], comp))) {
-		return comp, dec, fmt.Sprintf("format: Compress(x) is not the legacy LZW encoding (reference stream without its leading clear code) for %d input bytes", len(x))
+		return comp, dec, keepC, keepD, fmt.Sprintf("format: Compress(x) is not the legacy LZW encoding (reference stream without its leading clear code) for %d input bytes", len(x))
 	}
 	cb := bitsOf(comp)
 	fc := 0
@@ -170,17 +176,92 @@ func oracleComp(x []byte) (comp, dec []byte, msg string) {
 		}
 	}
 	if fc != int(x[0]) {
-		return comp, dec, fmt.Sprintf("format: first code is %d, not the literal %d", fc, x[0])
+		return comp, dec, keepC, keepD, fmt.Sprintf("format: first code is %d, not the literal %d", fc, x[0])
 	}
 	if y, err := stdDecompress(comp); err != nil || !bytes.Equal(y, x) {
-		return comp, dec, fmt.Sprintf("format: the reference decoder does not read Compress(x) back (err=%v)", err)
+		return comp, dec, keepC, keepD, fmt.Sprintf("format: the reference decoder does not read Compress(x) back (err=%v)", err)
 	}
 	// the reader also accepts the reference stream (with its clear code)
 	var d2 []byte
 	if p := hxlib.Catch(func() { d2 = common.Decompress(ref) }); p != "" || !bytes.Equal(d2, x) {
-		return comp, dec, "round trip: Decompress does not read the reference encoding of x " + p
+		return comp, dec, keepC, keepD, "round trip: Decompress does not read the reference encoding of x " + p
 	}
-	return comp, dec, ""
+	return comp, dec, keepC, keepD, ""
+}
+
+func clone(b []byte) []byte { return append([]byte{}, b...) }
+
+// perturb derives other byte strings of similar size from x (deterministic, for replay)
+func perturb(x []byte, k int) []byte {
+	y := make([]byte, len(x)+k)
+	for i := range y {
+		y[i] = byte(i*131+k) ^ 0x5a
+		if i < len(x) {
+			y[i] ^= x[len(x)-1-i]
+		}
+	}
+	return y
+}
+
+// oracleComp = oracleCompLive + keep and re-check: the slices returned by Compress
+// and Decompress are held while further Compress / Decompress calls run; a returned
+// value must never change afterwards and must still decompress to x.
+// The values reported to the model are the copies taken at return time.
+func oracleComp(x []byte) (comp, dec []byte, msg string) {
+	live, liveDec, keepC, keepD, msg := oracleCompLive(x)
+	if keepC == nil {
+		return live, liveDec, msg
+	}
+	if p := hxlib.Catch(func() {
+		for k := 0; k < 3; k++ {
+			o := common.Compress(perturb(x, k))
+			_ = common.Decompress(o)
+		}
+		_ = common.Compress(x[:len(x)/2])
+	}); p != "" && msg == "" {
+		msg = "Compress/Decompress panics: " + p
+	}
+	if msg == "" && !bytes.Equal(live, keepC) {
+		msg = fmt.Sprintf("aliasing: the %d bytes returned by Compress changed after later Compress calls", len(keepC))
+	}
+	if msg == "" && keepD != nil && !bytes.Equal(liveDec, keepD) {
+		msg = fmt.Sprintf("aliasing: the %d bytes returned by Decompress changed after later calls", len(keepD))
+	}
+	if msg == "" {
+		var d2 []byte
+		if p := hxlib.Catch(func() { d2 = common.Decompress(live) }); p != "" || !bytes.Equal(d2, x) {
+			msg = "round trip: a held Compress result no longer decompresses to x after later Compress calls " + p
+		}
+	}
+	return keepC, keepD, msg
+}
+
+// oracleHold: several strings are compressed in a row, every result is held, then
+// each is decompressed (what receipts / headers of several blocks do).
+func oracleHold(xs [][]byte) (keeps [][]byte, msg string) {
+	live := make([][]byte, len(xs))
+	keeps = make([][]byte, len(xs))
+	if p := hxlib.Catch(func() {
+		for i, x := range xs {
+			live[i] = common.Compress(x)
+			keeps[i] = clone(live[i])
+		}
+	}); p != "" {
+		return nil, "Compress panics: " + p
+	}
+	for i, x := range xs {
+		var d []byte
+		if p := hxlib.Catch(func() { d = common.Decompress(live[i]) }); p != "" {
+			return keeps, "Decompress panics: " + p
+		}
+		if !bytes.Equal(live[i], keeps[i]) && msg == "" {
+			msg = fmt.Sprintf("aliasing: result %d of %d held Compress results changed after later Compress calls", i, len(xs))
+		}
+		if !bytes.Equal(d, x) && msg == "" {
+			msg = fmt.Sprintf("round trip: held result %d of %d no longer decompresses to its input (%d bytes in, %d back)", i, len(xs), len(x), len(d))
+		}
+	}
+	return keeps, msg
 }
 
 func nontrivialComp(x, comp []byte) (bool, bool) {
@@ -558,6 +639,26 @@ func emitComp(c *hxlib.Ctx, kind string, x []byte) {
 	c.Emit(cs)
 }
 
+func emitHold(c *hxlib.Ctx, xs [][]byte) {
+	keeps, msg := oracleHold(xs)
+	var in holdIn
+	var pairs []string
+	for i, x := range xs {
+		in.Xs = append(in.Xs, hex.EncodeToString(x))
+		if keeps != nil && keeps[i] != nil {
+			pairs = append(pairs, "("+hxpack.Bytes(x)+", "+hxpack.Bytes(keeps[i])+")")
+		}
+	}
+	cs := hxlib.Case{Kind: fmt.Sprintf("hold-%d", len(xs)), Input: map[string]interface{}{"t": "hold", "v": in},
+		Nontrivial: len(xs) > 1, OracleErr: msg}
+	if !c.OracleOnly {
+		cs.Coq = "(CSeq " + hxlib.CoqList(pairs) + ")"
+	} else {
+		cs.Key = strings.Join(in.Xs, "|")
+	}
+	c.Emit(cs)
+}
+
 func oracleDec(b []byte) (out []byte, msg string) {
 	if p := hxlib.Catch(func() { out = common.Decompress(b) }); p != "" {
 		return nil, "Decompress panics on a malformed stream: " + p
@@ -610,6 +711,14 @@ func gen(c *hxlib.Ctx) {
 			emitComp(c, edges[0].kind, edges[0].x)
 			edges = edges[1:]
 		}
+		if i%25 == 11 { // several results held at once
+			var xs [][]byte
+			for k := 0; k < 2+r.Intn(5); k++ {
+				_, x := smallInput(r)
+				xs = append(xs, x)
+			}
+			emitHold(c, xs)
+		}
 		if i%4 == 0 {
 			kind, b := malformed(r)
 			emitDec(c, kind, b)
@@ -653,6 +762,16 @@ func replay(raw json.RawMessage) string {
 		x, _ := hex.DecodeString(v.X)
 		_, _, msg := oracleComp(x)
 		return msg
+	case "hold":
+		var v holdIn
+		json.Unmarshal(in.V, &v)
+		var xs [][]byte
+		for _, h := range v.Xs {
+			x, _ := hex.DecodeString(h)
+			xs = append(xs, x)
+		}
+		_, msg := oracleHold(xs)
+		return msg
 	case "dec":
 		var v decIn
 		json.Unmarshal(in.V, &v)
@@ -668,7 +787,7 @@ func main() {
 		ID: "C25",
 		Rule: "inputs: what LogsBloom.CompressedBytes compresses (real blooms built with AddLog, big.Int.Bytes of sparse 2048-bit numbers), sparse 256-byte arrays, tiny strings, random bytes, single runs (every code is the one being defined), periodic strings, runs of varying length, small alphabets, byte extremes, lengths at the 9->10 and 10->11 bit steps; " +
 			"every ~20th case is 4-8 KiB (random, runs, alphabets, sparse, periodic) random data up to a table reset followed by repetitions of the bytes around the reset point, or 10-32 KiB dense data with re-used windows (several resets); on every run inputs cut by bisection (steered by the reference encoder) to exactly 255/767/1791/3838 data codes and their neighbours (the last code reaches a width step / the table limit, so Close must widen / clear before eof); " +
-			"observed: Compress(x) bytes and Decompress of it, compared byte for byte with the model; direct oracle: round trip, and bit-for-bit equality with Go's compress/lzw stream minus its leading 9-bit clear code, first code = literal x[0], both reference directions decode; " +
+			"observed: Compress(x) bytes and Decompress of it, compared byte for byte with the model; direct oracle: round trip, and bit-for-bit equality with Go's compress/lzw stream minus its leading 9-bit clear code, first code = literal x[0], both reference directions decode; keep and re-check: every slice returned by Compress/Decompress is copied when returned and compared again after further Compress/Decompress calls (in every case, and in hold-k cases where 2-6 results are held and decompressed afterwards): a returned value never changes and still decompresses to its input; " +
 			"malformed stream for Decompress (truncated, bit flips, trailing bytes, random bytes, reference format with clear code, hand-built code sequences with clear/eof/undefined/being-defined codes, no eof, saturated reader with 4095 codes and no clear): output bytes compared with the model, no panic; " +
 			"non-trivial = non-empty input whose stream uses at least one dictionary code (compress cases) / at least one byte decoded (decompress cases); distinct = distinct case term",
 		Shard:    48,
